@@ -6,7 +6,7 @@ import sys
 
 ROOT = os.path.dirname(os.path.dirname(os.path.abspath(__file__)))
 
-HOOK_COMMITS = ["b1474d3", "17f8504", "209f7d4", "d1c653d", "95035df", "920cc08", "6e834a5", "da9a5fd", "b20d73f"]
+HOOK_COMMITS = ["b1474d3", "17f8504", "209f7d4", "d1c653d", "95035df", "920cc08", "6e834a5", "da9a5fd", "b20d73f", "6f5243c"]
 
 CHECKS = {
     "C07": {
